@@ -1,5 +1,5 @@
 """Which units exist, and what each claimed property covers / does not cover (copied into evidence)."""
-UNITS = ['budget', 'scalars', 'events', 'location', 'live', 'reader', 'snippet', 'ring', 'quoting', 'typed', 'base64', 'crop', 'robotics', 'plain']
+UNITS = ['budget', 'scalars', 'events', 'location', 'live', 'reader', 'snippet', 'ring', 'seropts', 'quoting', 'typed', 'base64', 'crop', 'robotics', 'plain']
 
 GLOBAL_ASSUMPTIONS = [
     'Verus 0.2026.09.13 and its bundled Z3 are sound; the extractor rewrite rules R0..R37 preserve meaning; the bounded stand-in (vc/bounded.py) is only ever used to FIND failing inputs for functions Verus cannot take and is never counted as proof (DESIGN.md 3.2 and section 0)',
@@ -225,6 +225,7 @@ PROPS = {
     ),
     'C20': dict(
         covered=[
+            'serializer set-up (unit seropts): SerializerOptions::consistent accepts options exactly when indent_step >= 1; YamlSerializer::new / with_indent / with_options copy every option into the field the emitter reads and set nothing else; a new serializer starts at a line start, outside every flow collection, with nothing pending',
             'write_end_of_scalar: a staged inline comment is written only outside flow context, as ` # ` + text + newline, and is consumed',
             'the statement that stages a Commented comment (lifted from TupleSer::serialize_field): the staged text contains neither \\n nor \\r',
             'literal / folded wrappers and the prefer_block_scalars option (serialize_str fragments, see C12): automatic literal only for multi-line text, automatic fold only for one line of text, none in flow context or under quote_all; header and literal body as under C12; write_folded_block folding rules (never before a tab, never a line starting with space or tab)',
